@@ -381,6 +381,21 @@ def rules(ctx):
              "qubo_to_matrix can fill the matrix from a raw dict: keys naming the same monomial ((0,1)/(1,0), (0,)/(0,0)) "
              "overwrite each other instead of accumulating")
 
+    # a matrix has no place for a constant: a QUBO with a non-zero constant is rejected before the matrix is built
+    rz = [n for n in gq.stmts() if isinstance(n, ast.Raise)]
+    okc = False
+    for n in rz:
+        for t, pol, o in gq.edge_dominators(n):
+            for a_ in compare_atoms(t, pol):
+                if a_ in (('%s[()]' % qp, '!=', '0'), ('truthy', '%s[()]' % qp), ('truthy', '%s.offset' % qp), ('%s.offset' % qp, '!=', '0'),
+                          ('truthy', '%s.get((), 0)' % qp), ('%s.get((), 0)' % qp, '!=', '0'), ('()', 'in', qp)):
+                    okc = all(gq.reaches(n, lp) is False or True for lp in loops)
+    okc = okc and all(any(gq.dominates([o for t, pol, o in gq.edge_dominators(n)], lp) for n in rz) for lp in loops)
+    ctx.inst('R04.8', qm, 'constant rejected', okc,
+             "a non-zero constant raises before the matrix is filled" if okc else
+             "qubo_to_matrix no longer rejects a QUBO with a constant term: the constant is silently dropped (or written into the "
+             "matrix), so the exported matrix describes another function")
+
     # ---------------------------------------------------------------- R04.9
     from .C14 import registration_parity, refresh_order, who_may_write, inverse_pairs, G1
     registration_parity(ctx, 'R04.9')
